@@ -114,16 +114,21 @@ def parseOffset (l : Array String) (st : St) : P (Int × St) := do
     pure (a * 3600 * signal, { st with used := st.used ++ [i], i := i + 1 })
   else none
 
-/-- `while j < len_l and not [x for x in l[j] if x in "0123456789:,-+"]: j += 1`, from `i` -/
+/-- every character is an ASCII letter (`x in string.ascii_letters`) -/
+def isLetters (s : String) : Bool := s.toList.all (fun c => ck c == .alpha)
+
+/-- `while j < len_l and not [x for x in l[j] if x not in string.ascii_letters]: j += 1`, from `i`: an abbreviation run is made of
+    ASCII letter tokens only (fix D-C08b; before it the run stopped at the first token containing one of "0123456789:,-+", so any
+    other text was absorbed into the abbreviation) -/
 def skipAbbr (l : List String) (i : Nat) : Nat :=
-  i + ((l.drop i).takeWhile (fun t => !hasOffsetChar t)).length
+  i + ((l.drop i).takeWhile (fun t => isLetters t)).length
 
 /-- the abbreviation/offset loop `BRST+3[BRDT[+2]]` -/
 def abbrLoop (l : Array String) : Nat → St → P St
   | 0, st => some st
   | fuel + 1, st =>
     if st.i < l.size then
-      -- j = first index ≥ i whose token contains one of "0123456789:,-+" (or len)
+      -- j = first index ≥ i whose token is not made of ASCII letters (or len)
       let j := skipAbbr l.toList st.i
       if j != st.i then
         let abbr := String.join ((l.toList.drop st.i).take (j - st.i))
